@@ -417,7 +417,7 @@ func fullPathStress(res *Result, r *Rng, rounds int) {
 var ctrRand atomic.Uint64
 
 func runC15(res *Result, tier string, seed int64, replay string) {
-	res.Rule = "(1) model-guided replay: 2–6 goroutines on 1–2 keys call the real singleflightDo, parked at verif yield points; at every step the Lean Model (driver `sf`) gives the enabled set, one enabled goroutine is granted one atomic step and must arrive at the label the Model predicts (start/locked/waiting/lead/parsing/assigned/signalled/deleting/ret) and return the leader's node; (2) unguided search: free-running goroutines with seeded delays at the yield points, oracle = no overlapping parse per key, complete result of own key, all return; (3) full-path stress of Render(WithCache) with expiry shifts and stop/restart, solo-result comparison, cleanup-goroutine accounting; (4) life of the cleanup goroutine: histories with stops, restarts and configuration calls made while a cleaner runs, each in a fresh process and on the Lean cache Model (goroutines started / exited / registered, at most one alive); run under the race detector. Non-trivial = schedule with ≥2 goroutines on one key; distinct by label trace"
+	res.Rule = "(1b) model-guided replay of whole cached compilations: 2–5 goroutines compile three documents (one unparsable) through Render(WithCache), parked at the yield points of parseAST and singleflightDo; the Lean concurrent cache Model (driver `cc`) chooses each next step — a thread step, an eviction, the passing of time — and after every step the goroutine must stand where the Model's thread stands; every compilation must return the uncached result and the cache must hold exactly the Model's entries; (1) model-guided replay: 2–6 goroutines on 1–2 keys call the real singleflightDo, parked at verif yield points; at every step the Lean Model (driver `sf`) gives the enabled set, one enabled goroutine is granted one atomic step and must arrive at the label the Model predicts (start/locked/waiting/lead/parsing/assigned/signalled/deleting/ret) and return the leader's node; (2) unguided search: free-running goroutines with seeded delays at the yield points, oracle = no overlapping parse per key, complete result of own key, all return; (3) full-path stress of Render(WithCache) with expiry shifts and stop/restart, solo-result comparison, cleanup-goroutine accounting; (4) life of the cleanup goroutine: histories with stops, restarts and configuration calls made while a cleaner runs, each in a fresh process and on the Lean cache Model (goroutines started / exited / registered, at most one alive); run under the race detector. Non-trivial = schedule with ≥2 goroutines on one key; distinct by label trace"
 	drv, err := startDriver()
 	if err != nil {
 		res.Disagree(Violation{Sig: "driver-missing", Kind: "schedule", What: err.Error()})
@@ -460,6 +460,9 @@ func runC15(res *Result, tier string, seed int64, replay string) {
 			break
 		}
 	}
+	// (1b) the whole cached compilation path (Load, expiry test, Delete, single-flight, parse, Store, hand-over) against the
+	// concurrent cache Model, schedule by schedule
+	ccReplays(res, seed, nSched/2, "C15")
 	fullPathStress(res, NewRng(seed, "c15/stress"), rounds)
 	// (4) the cleanup goroutine's life against the Lean cache Model, each history in a fresh process
 	if pool, perr := startDriverPool(4); perr == nil {
